@@ -416,6 +416,73 @@ impl Blocker {
 //@ ENDSUBST
 //@END
 
+    // R6: the iterator chains that build the new tag set (T: they compute the stated set)
+    #[verifier::external_body]
+    fn vf_tag_set(tags: &[&str]) -> (r: HashSet<String>)
+        ensures forall|t: String| r@.contains(t) <==> exists|i: int| 0 <= i < tags@.len() && (#[trigger] tags@[i])@ == t@
+    { tags.iter().map(|&t| String::from(t)).collect() }
+    #[verifier::external_body]
+    fn vf_tag_union(&self, tags: &[&str]) -> (r: HashSet<String>)
+        ensures forall|t: String| r@.contains(t) <==> (self.tags_enabled@.contains(t) || exists|i: int| 0 <= i < tags@.len() && (#[trigger] tags@[i])@ == t@)
+    { unimplemented!() }
+    #[verifier::external_body]
+    fn vf_tag_difference(&self, tags: &[&str]) -> (r: HashSet<String>)
+        ensures forall|t: String| r@.contains(t) <==> (self.tags_enabled@.contains(t) && !exists|i: int| 0 <= i < tags@.len() && (#[trigger] tags@[i])@ == t@)
+    { unimplemented!() }
+
+//@EXTRACT src/blocker.rs :: impl Blocker :: fn use_tags
+//@ SAFETY C07.use_tags.safety
+//@ SPEC
+    ensures
+        // "replacing ... behaves as set assignment"
+        forall|t: String| final(self).tags_enabled@.contains(t) <==> exists|i: int| 0 <= i < tags@.len() && (#[trigger] tags@[i])@ == t@, // OBL C07.use_tags.assignment
+        same_rules_except_tagged(*old(self), *final(self)), // OBL C07.use_tags.frame
+//@ ENDSPEC
+//@ SUBST R6
+    tags.iter().map(|&t| String::from(t)).collect()
+//@ WITH
+    Self::vf_tag_set(tags)
+//@ ENDSUBST
+//@END
+
+//@EXTRACT src/blocker.rs :: impl Blocker :: fn enable_tags
+//@ SAFETY C07.enable_tags.safety
+//@ SPEC
+    ensures
+        // "enabling ... behaves as union"
+        forall|t: String| final(self).tags_enabled@.contains(t) <==> (old(self).tags_enabled@.contains(t) || exists|i: int| 0 <= i < tags@.len() && (#[trigger] tags@[i])@ == t@), // OBL C07.enable_tags.union
+        same_rules_except_tagged(*old(self), *final(self)), // OBL C07.enable_tags.frame
+//@ ENDSPEC
+//@ REPLACE R6
+        tags
+            .iter()
+            .map(|&t| String::from(t))
+//@ UPTO
+            .collect();
+//@ WITH
+        self.vf_tag_union(tags);
+//@ ENDREPLACE
+//@END
+
+//@EXTRACT src/blocker.rs :: impl Blocker :: fn disable_tags
+//@ SAFETY C07.disable_tags.safety
+//@ SPEC
+    ensures
+        // "disabling ... behaves as difference"
+        forall|t: String| final(self).tags_enabled@.contains(t) <==> (old(self).tags_enabled@.contains(t) && !exists|i: int| 0 <= i < tags@.len() && (#[trigger] tags@[i])@ == t@), // OBL C07.disable_tags.difference
+        same_rules_except_tagged(*old(self), *final(self)), // OBL C07.disable_tags.frame
+//@ ENDSPEC
+//@ REPLACE R6
+        self
+            .tags_enabled
+            .difference(
+//@ UPTO
+            .collect();
+//@ WITH
+        self.vf_tag_difference(tags);
+//@ ENDREPLACE
+//@END
+
 //@EXTRACT src/blocker.rs :: impl Blocker :: fn filter_exists
 //@ RET r
 //@ SAFETY C06.filter_exists.safety
